@@ -42,21 +42,23 @@ def run_property(prop: str, tier: str, seed: int, only_key: str = None, quiet: b
         if tier == "thorough" and hasattr(pack, "check_thorough"):
             pack.check_thorough(ctx)
         ctx.finish_floors()
-        if tier == "thorough" and only_key is None:
+        if tier == "thorough" and only_key is None and not os.environ.get("PBSTATIC_SCRATCH"):
             from .corpus import selftest
 
             ctx.extra["self_validation"] = selftest.run_for(prop, seed)
     except AnalysisError as e:
         msg = f"ANALYSIS-ERROR property={prop} {e}"
         print(msg)
-        report.write_evidence(ctx, time.time() - t0, [], [], explanation or "analysis error", error=str(e))
+        if not os.environ.get("PBSTATIC_SCRATCH"):
+            report.write_evidence(ctx, time.time() - t0, [], [], explanation or "analysis error", error=str(e))
         return 2
     except Exception as e:  # internal error: never exit 1
         tb = traceback.format_exc()
         print(f"ANALYSIS-ERROR property={prop} internal exception: {e.__class__.__name__}: {e}")
         print(tb)
         try:
-            report.write_evidence(ctx, time.time() - t0, [], [], explanation or "analysis error", error=tb[-2000:])
+            if not os.environ.get("PBSTATIC_SCRATCH"):
+                report.write_evidence(ctx, time.time() - t0, [], [], explanation or "analysis error", error=tb[-2000:])
         except Exception:
             pass
         return 2
@@ -84,11 +86,12 @@ def run_property(prop: str, tier: str, seed: int, only_key: str = None, quiet: b
             for u in r.undecided:
                 print(f"       UNDECIDED clause={r.id}: {u}")
     wall = time.time() - t0
-    if only_key is None:
+    scratch = bool(os.environ.get("PBSTATIC_SCRATCH"))
+    if only_key is None and not scratch:
         report.write_evidence(ctx, wall, violations, matched, explanation)
     rc = 0
     for i, f in enumerate(violations):
-        path = report.write_replay(ctx, f, i) if only_key is None else "-"
+        path = report.write_replay(ctx, f, i) if (only_key is None and not scratch) else "-"
         print(f.text())
         print(f"VIOLATION property={prop} replay={path}")
         rc = 1
